@@ -2676,8 +2676,8 @@ Together with `C13_append_only` (records are never altered or removed from a fil
 PARTIAL - not proved here (checked on every run by the harness oracle, keys `reader-duplicate`, `reader-reorder`,
 `reader-skip-on-disk`, `reader-undelivered-on-disk`):
 * the composition over a whole history into "the concatenation of what the reader returns is the ghost stream with
-  whole files removed": across a refresh that re-bases the position (all known files gone) "never delivered twice"
-  needs the freshness of later file names (`NamesBelow`) as an extra induction, which is not done;
+  whole files removed" is NOT in this file: it is `C13_reader_stream` in `C13Stream.lean` (subsequence, at most once -
+  also across a refresh that re-bases the position -, skips only for unlinked files; per segment between seeks);
 * histories with a writer restart (`reopen w`): after an external deletion of the newest file a restarted writer can
   reuse or go below a name the reader has already passed (see pending_fixes/C13-name-regression.finding.md);
 * the writable instance reading its own log. -/
